@@ -232,6 +232,17 @@ class Session:
             call("deref", lambda m=mod: m.has_docstrings, what=f"{name}.has_docstrings")
         return fails
 
+    def deref_outcomes(self) -> dict:
+        out = {}
+        for a in self.aliases():
+            where = f"{a.parent.path}.{a.name}" if a.parent is not None else a.name
+            try:
+                value = call("deref", getattr, a, "final_target", what=f"alias {where} .final_target", allowed=self.allowed)
+                out[where] = "-> " + str(getattr(value, "path", value))
+            except self.allowed as exc:
+                out[where] = type(exc).__name__
+        return out
+
     def _deref(self, a, depth: int) -> list[Fail]:
         fails = []
         where = f"{a.parent.path}.{a.name}" if a.parent is not None else a.name
@@ -335,7 +346,20 @@ class Session:
                 self.classes["obs:unresolved-after-resolve"] += 1
             return fails
         if kind == "deref":
+            # "resolving again is a no-op": dereferencing re-attempts the resolution of every unresolved alias, so the
+            # outcome of dereferencing an alias (the object reached, or the kind of error) must not change when it is
+            # simply done again, with no load / expansion in between.
+            before = self.deref_outcomes()
             fails = self.deref_all()
+            after = self.deref_outcomes()
+            changed = sorted(k for k in before if k in after and before[k] != after[k])
+            if changed and not fails:
+                k = changed[0]
+                fails.append(
+                    Fail("fixpoint", "deref-outcome-changes",
+                         f"dereferencing alias {k} gave {before[k]} the first time and {after[k]} when done again "
+                         f"({len(changed)} alias(es) change)", {"changed": changed[:20]})
+                )
             self.classes["step:deref"] += 1
             if not fails and self.loaded:
                 fails = self.check_all_or_nothing("dereferencing every alias")
